@@ -14,6 +14,7 @@ import (
 	"os"
 	"os/exec"
 	"path/filepath"
+	"regexp"
 	"sort"
 	"strings"
 	"time"
@@ -22,8 +23,12 @@ import (
 const nativeAPITemplate = `package %s
 
 import (
+	"archive/tar"
+	"bytes"
 	"encoding/json"
+	"errors"
 	"fmt"
+	"io"
 	"math/rand"
 	"os"
 	"runtime"
@@ -210,7 +215,7 @@ var (
 	verifSchedCond    = sync.NewCond(&verifSchedMu)
 	verifSchedPos     int
 	verifSchedBroken  bool
-	verifSchedRunner  = -1   // logical id of the goroutine that passed the last point
+	verifSchedRunner  = 1 << 30 // id of the goroutine that passed the last point (none yet)
 	verifSchedArrived = true // that goroutine has reached its next point (or finished)
 	verifSchedLast    time.Time
 	verifGoLabels     sync.Map // goroutine id -> logical id
@@ -226,11 +231,24 @@ func verifGoid() string {
 	return "?"
 }
 
+var verifMainGoid string
+
 func verifMyLabel() int {
-	if v, ok := verifGoLabels.Load(verifGoid()); ok {
+	id := verifGoid()
+	if v, ok := verifGoLabels.Load(id); ok {
 		return v.(int)
 	}
-	return 0
+	if id == verifMainGoid {
+		return 0
+	}
+	return -1 // a goroutine started inside the library
+}
+
+func verifLabelStr(l int) string {
+	if l < 0 {
+		return "?"
+	}
+	return strconv.Itoa(l)
 }
 
 func verifGo(i int) {
@@ -248,7 +266,44 @@ func verifGoDone() {
 	verifSchedMu.Unlock()
 }
 
-func verifSched(label string) { verifSchedAt(strconv.Itoa(verifMyLabel()) + ":" + label) }
+func verifSched(label string) { verifSchedAt(verifLabelStr(verifMyLabel()) + ":" + label) }
+
+// binding of the engine's goroutine numbers (g<k>) to native goroutines that the harness did not name
+var verifBound = map[string]int{} // "g<k>" -> sequencer id
+var verifBoundRev = map[int]string{}
+
+// verifSchedMatch: may the goroutine 'me' that arrived with 'key' ("<who>:<label>") pass the point 'want'?
+func verifSchedMatch(want, key string, me int) bool {
+	if want == key {
+		return true
+	}
+	if !strings.HasPrefix(key, "?:") || !strings.HasPrefix(want, "g") {
+		return false
+	}
+	i := strings.Index(want, ":")
+	if i < 0 || want[i:] != key[1:] {
+		return false
+	}
+	g := want[:i]
+	if b, ok := verifBound[g]; ok {
+		return b == me
+	}
+	if _, taken := verifBoundRev[me]; taken {
+		return false
+	}
+	return true
+}
+
+func verifSchedBind(want string, me int) {
+	if strings.HasPrefix(want, "g") {
+		if i := strings.Index(want, ":"); i > 0 {
+			if _, ok := verifBound[want[:i]]; !ok {
+				verifBound[want[:i]] = me
+				verifBoundRev[me] = want[:i]
+			}
+		}
+	}
+}
 
 func verifSchedAt(key string) {
 	order := verifM.SchedOrder
@@ -257,6 +312,11 @@ func verifSchedAt(key string) {
 		return
 	}
 	me := verifMyLabel()
+	if me < 0 {
+		// unidentified goroutines are told apart by their goroutine id inside the sequencer
+		gid, _ := strconv.Atoi(verifGoid())
+		me = -1 - gid
+	}
 	verifSchedMu.Lock()
 	defer verifSchedMu.Unlock()
 	if verifSchedRunner == me {
@@ -265,9 +325,9 @@ func verifSchedAt(key string) {
 	}
 	deadline := time.Now().Add(3 * time.Second)
 	for !verifSchedBroken && verifSchedPos < len(order) {
-		myTurn := order[verifSchedPos] == key
+		myTurn := verifSchedMatch(order[verifSchedPos], key, me)
 		// the previous runner must be quiescent: at its next point, finished, or (after a grace period) blocked
-		quiet := verifSchedRunner < 0 || verifSchedRunner == me || verifSchedArrived || time.Since(verifSchedLast) > 150*time.Millisecond
+		quiet := verifSchedRunner == 1<<30 || verifSchedRunner == me || verifSchedArrived || time.Since(verifSchedLast) > 150*time.Millisecond
 		if myTurn && quiet {
 			break
 		}
@@ -281,6 +341,7 @@ func verifSchedAt(key string) {
 		verifSchedCond.Wait()
 	}
 	if !verifSchedBroken && verifSchedPos < len(order) {
+		verifSchedBind(order[verifSchedPos], me)
 		verifSchedPos++
 		verifSchedRunner, verifSchedArrived, verifSchedLast = me, false, time.Now()
 	}
@@ -291,7 +352,81 @@ func verifOSCallArg(i, k int) string     { return "" }
 func verifOSCallName(i int) string       { return "" }
 func verifSymbolic() bool { return false }
 
+// ---- tar stream script (natively serialised with the real archive/tar.Writer) ----
+
+type verifTarEnt struct {
+	name     string
+	typeflag byte
+	mode     int64
+	size     int
+	fill     int
+}
+
+var verifTarScript []verifTarEnt
+
+func verifTarAdd(name string, typeflag int, mode int64, size int, fill int) {
+	verifTarScript = append(verifTarScript, verifTarEnt{name, byte(typeflag), mode, size, fill})
+}
+
+var verifErrReader = errors.New("verif: injected reader failure")
+
+type verifTarStream struct {
+	data   []byte
+	pos    int
+	cut    int
+	failAt int
+}
+
+func (s *verifTarStream) Read(p []byte) (int, error) {
+	limit := len(s.data)
+	if s.failAt >= 0 && s.failAt*512 < limit {
+		limit = s.failAt * 512
+	}
+	if s.pos >= limit {
+		if s.failAt >= 0 && s.pos >= s.failAt*512 {
+			return 0, verifErrReader
+		}
+		return 0, io.EOF
+	}
+	n := copy(p, s.data[s.pos:limit])
+	s.pos += n
+	return n, nil
+}
+
+func verifTarReader(cut, failAt int) io.Reader {
+	var buf bytes.Buffer
+	w := tar.NewWriter(&buf)
+	for _, e := range verifTarScript {
+		h := &tar.Header{Name: e.name, Typeflag: e.typeflag, Mode: e.mode, Size: int64(e.size), Format: tar.FormatGNU}
+		if e.typeflag == tar.TypeDir {
+			h.Size = 0
+		}
+		if err := w.WriteHeader(h); err != nil {
+			panic(err)
+		}
+		if e.typeflag != tar.TypeDir {
+			content := make([]byte, e.size)
+			for i := range content {
+				content[i] = byte((e.fill + i*7) %% 256)
+			}
+			if _, err := w.Write(content); err != nil {
+				panic(err)
+			}
+		}
+	}
+	if err := w.Close(); err != nil {
+		panic(err)
+	}
+	verifTarScript = nil
+	data := buf.Bytes()
+	if cut >= 0 && cut*512 < len(data) {
+		data = data[:cut*512]
+	}
+	return &verifTarStream{data: data, cut: cut, failAt: failAt}
+}
+
 func verifRunEntry(entry string) {
+	verifMainGoid = verifGoid()
 	verifLoad()
 	f, ok := verifEntries[entry]
 	if !ok {
@@ -378,7 +513,7 @@ func engineOverlay(repo string, pkgs []*pkgOverlay) (map[string][]byte, error) {
 			if err != nil {
 				return nil, err
 			}
-			ov[harnessOverlayPath(repo, p.Dir, f)] = b
+			ov[harnessOverlayPath(repo, p.Dir, f)] = rewritePackage(b, p.PkgName)
 		}
 		ov[filepath.Join(repo, p.Dir, "zz_verif_api.go")] = []byte(fmt.Sprintf(engineAPITemplate, p.PkgName))
 	}
@@ -400,7 +535,17 @@ func buildNative(repo, workDir string, pkgs []*pkgOverlay) *NativeBuild {
 	os.MkdirAll(workDir, 0o755)
 	replace := map[string]string{}
 	for _, p := range pkgs {
-		for _, f := range p.Files {
+		for i, f := range p.Files {
+			// shared harness library files are written for another package: retarget their package clause
+			b, err := os.ReadFile(f)
+			if err == nil {
+				if nb := rewritePackage(b, p.PkgName); !bytes.Equal(nb, b) {
+					cp := filepath.Join(workDir, fmt.Sprintf("%s_lib%d_%s", strings.ReplaceAll(p.Dir, "/", "_"), i, filepath.Base(f)))
+					os.WriteFile(cp, nb, 0o644)
+					replace[harnessOverlayPath(repo, p.Dir, f)] = cp
+					continue
+				}
+			}
 			replace[harnessOverlayPath(repo, p.Dir, f)] = f
 		}
 		api := filepath.Join(workDir, strings.ReplaceAll(p.Dir, "/", "_")+"_api.go")
@@ -566,6 +711,17 @@ func reproduces(f *Failure, r *NativeRun) (bool, string) {
 // engineAPITemplate: import-free declarations for the symbolic run (the engine intercepts the calls).
 const engineAPITemplate = `package %s
 
+import "io"
+
+type verifTarStream struct {
+	cut    int
+	failAt int
+}
+
+func (s *verifTarStream) Read(p []byte) (int, error)                            { return 0, io.EOF }
+func verifTarAdd(name string, typeflag int, mode int64, size int, fill int) {}
+func verifTarReader(cut, failAt int) io.Reader                                  { return &verifTarStream{cut: cut, failAt: failAt} }
+
 func verifInt64(name string) int64           { return 0 }
 func verifInt(name string) int               { return 0 }
 func verifUint32(name string) uint32         { return 0 }
@@ -593,3 +749,17 @@ func verifOSCallArg(i, k int) string         { return "" }
 func verifOSCallName(i int) string           { return "" }
 func verifSymbolic() bool                    { return true }
 `
+
+
+var packageClauseRE = regexp.MustCompile(`(?m)^package\s+\w+`)
+
+// rewritePackage retargets the package clause of a shared harness library file.
+func rewritePackage(src []byte, pkg string) []byte {
+	loc := packageClauseRE.FindIndex(src)
+	if loc == nil {
+		return src
+	}
+	out := append([]byte{}, src[:loc[0]]...)
+	out = append(out, []byte("package "+pkg)...)
+	return append(out, src[loc[1]:]...)
+}
